@@ -8,7 +8,7 @@ from vmc.oracles import scene as sc
 FORMATS = ["glyf_colr_1", "glyf", "glyf_colr_0", "cff_colr_0", "cff_colr_1", "cff2_colr_0", "cff2_colr_1",
            "picosvg", "picosvgz", "untouchedsvg", "untouchedsvgz", "cbdt", "sbix"]
 KEEP = ("vb_origin", "vb_size", "vb_aspect", "metrics", "width", "user", "tol", "clipq", "keep", "outline", "stack", "place",
-        "donor_paint", "copy_paint", "grp", "seqlen", "nglyphs", "where", "lin_vec", "rad_geom")
+        "donor_paint", "copy_paint", "grp", "seqlen", "nglyphs", "where", "lin_vec", "rad_geom", "twin", "shared_grad")
 DIMS = {"fmt": FORMATS}
 DIMS.update({k: scenes.DIMS[k] for k in KEEP})
 DIMS["pretty"] = [False, True]
@@ -25,7 +25,7 @@ def relevant(dev):
     bitmap = fmt in ("cbdt", "sbix")
     if "bitmap_h" in dev and not bitmap:
         return False
-    if bitmap and any(k in dev for k in ("tol", "clipq", "outline", "stack", "place", "donor_paint", "copy_paint", "grp", "where", "lin_vec", "rad_geom", "user", "pretty", "vb_origin")):
+    if bitmap and any(k in dev for k in ("tol", "clipq", "outline", "stack", "place", "donor_paint", "copy_paint", "grp", "where", "lin_vec", "rad_geom", "user", "pretty", "vb_origin", "twin", "shared_grad")):
         return False  # bitmap builds never look at the vector content
     if "pretty" in dev and "svg" not in fmt:
         return False
@@ -131,6 +131,11 @@ def run(report, tier, only=None):
     k = int(only) if only and only.isdigit() else K[tier]
     if only not in ("names", "cli"):
         lattice.explore(report, DIMS, k, execute, relevant=relevant, timeout=300)
+        # OT-SVG documents have the richest structure (ids, references, ranges): a second lattice with picosvg as
+        # the base format, so that two scene deviations are explored under it as well
+        dims_svg = {k_: v for k_, v in DIMS.items() if k_ not in ("fmt", "bitmap_h", "clipq")}
+        dims_svg["fmt"] = ["picosvg"]
+        lattice.explore(report, dims_svg, k, lambda dev: execute(dict(dev, fmt="picosvg")), relevant=relevant, timeout=300, tag="picosvg")
     report.extra["deviation_bound"] = k
     if only in (None, "names"):
         import itertools
